@@ -237,6 +237,147 @@ def keepdim_of(fn):
     return bool(hits)
 
 
+def encoder_loop(fn, pre):
+    """statement-by-statement translation of the assembling part of an encoder
+
+        pauliop = PauliOperator()
+        for term in fieldop.terms:
+            it = np.nditer(term.coeffs, flags=["multi_index"])
+            for coeff in it:
+                [if coeff == 0: continue]
+                pstrings = [PauliString.identity(L)]
+                for i, j in enumerate(it.multi_index):
+                    if <otype test>: pstrings = <list expression> elif ... else: raise
+                weight = ...                                  (translated by weight_of)
+                for ps in pstrings:
+                    sign = ps.refactor_sign()
+                    pauliop.add_pauli_string(WeightedPauliString(ps, sign * weight))
+        [if not pauliop.pstrings: ...]                        (keepdim_of)
+        pauliop.remove_zero_weight_strings(tol=...)           (tol_of)
+        return pauliop
+
+    and a whitelist for every other statement of the function.  List expressions: `[ps @ T for ps in pstrings]`
+    (-> map), `+` (-> ++), with T = clist[j][0|1] / alist[j][0|1] and `@` = pmul in the order written.
+    `sign = ps.refactor_sign(); add_pauli_string(WeightedPauliString(ps, sign * weight))` is the model's
+    [add_signed] (refactor_sign mutates ps and returns the sign; C09 ties refactor_sign/add_pauli_string)."""
+    body = body_nodoc(fn)
+    loops = [s for s in body if isinstance(s, ast.For)]
+    if len(loops) != 2:
+        raise Unsupported("expected two top-level loops (table, terms)")
+    tab_loop, tloop = loops
+    k1, k2 = body.index(tab_loop), body.index(tloop)
+    # prelude whitelist
+    seen = set()
+    for st in body[:k1]:
+        if isinstance(st, ast.Assign) and len(st.targets) == 1 and isinstance(st.targets[0], ast.Name):
+            nm, v = st.targets[0].id, ast.unparse(st.value)
+            if nm in seen or (nm, v) not in (("fields", "fieldop.fields()"), ("L", "fields[0].lattice.nsites"),
+                                             ("clist", "[]"), ("alist", "[]")):
+                raise Unsupported("statement before the table loop: %s" % ast.unparse(st)[:60])
+            seen.add(nm)
+        elif isinstance(st, ast.If) and not st.orelse and all(isinstance(x, ast.Raise) for x in st.body):
+            pass
+        else:
+            raise Unsupported("statement before the table loop: %s" % ast.unparse(st)[:60])
+    if seen != {"fields", "L", "clist", "alist"}:
+        raise Unsupported("fields / L / clist / alist not all defined before the table loop")
+    mid_ = body[k1 + 1:k2]
+    if len(mid_) != 1 or ast.unparse(mid_[0]) != "pauliop = PauliOperator()":
+        raise Unsupported("between the loops: expected exactly `pauliop = PauliOperator()`")
+    tail = body[k2 + 1:]
+    if tail and isinstance(tail[0], ast.If):
+        tail = tail[1:]                        # shape checked by keepdim_of
+    if len(tail) != 2 or not (isinstance(tail[0], ast.Expr) and isinstance(tail[0].value, ast.Call)
+                              and ast.unparse(tail[0].value.func) == "pauliop.remove_zero_weight_strings") \
+            or ast.unparse(tail[1]) != "return pauliop":
+        raise Unsupported("after the term loop: expected [empty-operator fallback], remove_zero_weight_strings, return pauliop")
+    # the term loop
+    if not (ast.unparse(tloop.target) == "term" and ast.unparse(tloop.iter) == "fieldop.terms" and not tloop.orelse
+            and len(tloop.body) == 2):
+        raise Unsupported("expected `for term in fieldop.terms:` with two statements")
+    itdef, cloop = tloop.body
+    if ast.unparse(itdef) != "it = np.nditer(term.coeffs, flags=['multi_index'])":
+        raise Unsupported("iterator is not np.nditer(term.coeffs, flags=['multi_index'])")
+    if not (isinstance(cloop, ast.For) and ast.unparse(cloop.iter) == "it" and ast.unparse(cloop.target) == "coeff"
+            and not cloop.orelse):
+        raise Unsupported("expected `for coeff in it:`")
+    stmts = list(cloop.body)
+    skip = None
+    if stmts and isinstance(stmts[0], ast.If):
+        s0 = stmts.pop(0)
+        if s0.orelse or len(s0.body) != 1 or not isinstance(s0.body[0], ast.Continue):
+            raise Unsupported("the leading `if` of the coefficient loop is not `if ...: continue`")
+        skip = zero_test(s0.test, "coeff")
+    if len(stmts) != 4:
+        raise Unsupported("coefficient loop: expected pstrings = [identity], the expansion loop, weight = ..., the insertion loop")
+    pdef, ploop, wdef, iloop = stmts
+    if ast.unparse(pdef) != "pstrings = [PauliString.identity(L)]":
+        raise Unsupported("pstrings does not start as [PauliString.identity(L)]")
+    if not (isinstance(ploop, ast.For) and ast.unparse(ploop.target) == "(i, j)"
+            and ast.unparse(ploop.iter) == "enumerate(it.multi_index)" and not ploop.orelse
+            and len(ploop.body) == 1 and isinstance(ploop.body[0], ast.If)):
+        raise Unsupported("expected `for i, j in enumerate(it.multi_index):` with one if/elif/else")
+
+    def pstr_expr(e):
+        if isinstance(e, ast.Name) and e.id == "ps":
+            return "ps"
+        if isinstance(e, ast.Subscript) and isinstance(e.slice, ast.Constant) and e.slice.value in (0, 1) \
+                and not isinstance(e.slice.value, bool) and isinstance(e.value, ast.Subscript) \
+                and isinstance(e.value.value, ast.Name) and e.value.value.id in ("clist", "alist") \
+                and isinstance(e.value.slice, ast.Name) and e.value.slice.id == "j":
+            return "(%s (%s (snd ij)))" % ("fst" if e.slice.value == 0 else "snd", e.value.value.id)
+        if isinstance(e, ast.BinOp) and isinstance(e.op, ast.MatMult):
+            return "(pmul %s %s)" % (pstr_expr(e.left), pstr_expr(e.right))
+        raise Unsupported("Pauli-string expression %s" % ast.unparse(e))
+
+    def list_expr(e):
+        if isinstance(e, ast.Name) and e.id == "pstrings":
+            return "pstrings"
+        if isinstance(e, ast.BinOp) and isinstance(e.op, ast.Add):
+            return "(%s ++ %s)" % (list_expr(e.left), list_expr(e.right))
+        if isinstance(e, ast.ListComp) and len(e.generators) == 1:
+            g = e.generators[0]
+            if isinstance(g.target, ast.Name) and g.target.id == "ps" and not g.ifs and not g.is_async:
+                return "(map (fun ps => %s) %s)" % (pstr_expr(e.elt), list_expr(g.iter))
+        raise Unsupported("list expression %s" % ast.unparse(e))
+
+    def pbranch(node):
+        if not (len(node.body) == 1 and isinstance(node.body[0], ast.Assign)
+                and ast.unparse(node.body[0].targets[0]) == "pstrings"):
+            raise Unsupported("branch of the expansion loop is not a single assignment to pstrings")
+        t = "if %s then %s\n          else " % (otype_test(node.test), list_expr(node.body[0].value))
+        if len(node.orelse) == 1 and isinstance(node.orelse[0], ast.If):
+            return t + pbranch(node.orelse[0])
+        if len(node.orelse) == 1 and isinstance(node.orelse[0], ast.Raise):
+            return t + "[]"
+        raise Unsupported("else-branch of the expansion loop")
+    step = pbranch(ploop.body[0])
+    if not (isinstance(wdef, ast.Assign) and ast.unparse(wdef.targets[0]) == "weight"):
+        raise Unsupported("expected `weight = ...` after the expansion loop")
+    if not (isinstance(iloop, ast.For) and ast.unparse(iloop.target) == "ps" and ast.unparse(iloop.iter) == "pstrings"
+            and not iloop.orelse and [ast.unparse(x) for x in iloop.body] ==
+            ["sign = ps.refactor_sign()", "pauliop.add_pauli_string(WeightedPauliString(ps, sign * weight))"]):
+        raise Unsupported("insertion loop is not `for ps in pstrings: sign = ps.refactor_sign(); "
+                          "pauliop.add_pauli_string(WeightedPauliString(ps, sign * weight))`")
+    inner = ("let pstrings := fold_left (fun (pstrings : list pstr) (ij : ifo) =>\n          %s)\n"
+             "        (combine (tpat tm) idx) [pident n] in\n"
+             "      let weight := gen_%s_weight half (length (tpat tm)) coeff in\n"
+             "      fold_left (fun (pauliop : list (wstr (K:=K))) (ps : pstr) => add_signed weight pauliop ps) pstrings pauliop"
+             % (step, pre))
+    if skip:
+        inner = "if %s then pauliop else\n      %s" % (skip, inner)
+    return ("(* the assembling loop, statement by statement; zero-skip test present: %s *)\n"
+            "Definition gen_%s_skips_zero : bool := %s.\n"
+            "Definition gen_%s_loop {K : Scalar} (half : K) (isz : K -> bool) (n : nat)\n"
+            "           (clist alist : nat -> (pstr * pstr)%%type) (terms : list (term K)) : list (wstr (K:=K)) :=\n"
+            "  fold_left (fun (pauliop : list (wstr (K:=K))) (tm : term K) =>\n"
+            "    fold_left (fun (pauliop : list (wstr (K:=K))) (idx : list nat) =>\n"
+            "      let coeff := tcf tm idx in\n"
+            "      %s)\n"
+            "    (all_idx n (length (tpat tm))) pauliop)\n"
+            "  terms []." % (bool(skip), pre, "true" if skip else "false", pre, inner))
+
+
 def qlit(fr):
     return "(Qmake %s %d%%positive)" % ("%d%%Z" % fr.numerator, fr.denominator)
 
@@ -267,6 +408,7 @@ def generate():
         out.append("Definition gen_%s_params {K : Scalar} (half : K) : encparams K :=\n"
                    "  {| ep_tab := gen_%s_tab; ep_weight := gen_%s_weight half; ep_keepdim := gen_%s_keepdim |}."
                    % (pre, pre, pre, pre))
+        out.append(encoder_loop(fn, pre))
         out.append("")
     return "\n".join(out) + "\n"
 
@@ -311,19 +453,42 @@ def generate_fo():
     mats = {}
     loop = None
     alist_ok = False
+    seen = set()
     for s in body:
-        if isinstance(s, ast.Assign) and len(s.targets) == 1 and isinstance(s.targets[0], ast.Name):
-            nm = s.targets[0].id
-            if nm == "alist":
-                if ast.unparse(s.value) != "[c.conj().T for c in clist]":
-                    raise Unsupported("alist is not [c.conj().T for c in clist]")
-                alist_ok = True
-            elif loop is None and nm not in ("fields", "L", "clist"):
-                mats[nm] = site_matrix(s.value)
-            elif nm == "L" and ast.unparse(s.value) != "fields[0].lattice.nsites":
-                raise Unsupported("L is not fields[0].lattice.nsites")
-        elif isinstance(s, ast.For) and loop is None:
-            loop = s
+        if loop is None:
+            # prelude: only the field lookup, the refusal of unsupported fields, L, the site matrices, clist = []
+            if isinstance(s, ast.Assign) and len(s.targets) == 1 and isinstance(s.targets[0], ast.Name):
+                nm = s.targets[0].id
+                if nm in seen:
+                    raise Unsupported("variable %s assigned twice before the ladder loop" % nm)
+                seen.add(nm)
+                if nm == "fields":
+                    if ast.unparse(s.value) != "self.fields()":
+                        raise Unsupported("fields is not self.fields()")
+                elif nm == "L":
+                    if ast.unparse(s.value) != "fields[0].lattice.nsites":
+                        raise Unsupported("L is not fields[0].lattice.nsites")
+                elif nm == "clist":
+                    if ast.unparse(s.value) != "[]":
+                        raise Unsupported("clist does not start empty")
+                elif nm == "alist":
+                    raise Unsupported("alist defined before clist is filled")
+                else:
+                    mats[nm] = site_matrix(s.value)
+            elif isinstance(s, ast.If) and not s.orelse and all(isinstance(x, ast.Raise) for x in s.body):
+                pass                     # a refusal (raise) narrows the domain, it cannot change a result
+            elif isinstance(s, ast.For):
+                loop = s
+            else:
+                raise Unsupported("statement before the ladder loop: %s" % ast.unparse(s)[:60])
+        elif isinstance(s, ast.Assign) and len(s.targets) == 1 and isinstance(s.targets[0], ast.Name) \
+                and s.targets[0].id == "alist":
+            if alist_ok or ast.unparse(s.value) != "[c.conj().T for c in clist]":
+                raise Unsupported("alist is not (once) [c.conj().T for c in clist]")
+            alist_ok = True
+        # everything after the ladder loop is checked by assembly_loop
+    if not {"fields", "L", "clist"} <= seen:
+        raise Unsupported("fields / L / clist not all defined before the ladder loop")
     if loop is None or ast.unparse(loop.target) != "i" or ast.unparse(loop.iter) != "range(L)":
         raise Unsupported("clist loop `for i in range(L):` not found")
     if not alist_ok:
@@ -359,7 +524,148 @@ def generate_fo():
         out.append("Definition gen_fo_%s {K : Scalar} : list (list K) := %s." % (nm, t))
     out.append("Definition gen_fo_site {K : Scalar} (i j : Z) : list (list K) := %s." % sel)
     out.append("Definition gen_fo_alist_is_adjoint : bool := true.")
+    out.append("")
+    out.append(assembly_loop(body, loop))
     return "\n".join(out) + "\n"
+
+
+# ---------------------------------------------------------------------- the accumulation loop of as_matrix
+def is_pow2L(e):
+    return ast.unparse(e) == "2 ** L"
+
+
+def zero_test(e, var):
+    """the test of `if <e>: continue`:  var == 0 (either order, 0 or 0.0) -> 'isz var'"""
+    if isinstance(e, ast.Compare) and len(e.ops) == 1 and isinstance(e.ops[0], ast.Eq):
+        a, b = e.left, e.comparators[0]
+        for x, y in ((a, b), (b, a)):
+            if isinstance(x, ast.Name) and x.id == var and isinstance(y, ast.Constant) \
+                    and isinstance(y.value, (int, float)) and not isinstance(y.value, bool) and y.value == 0:
+                return "isz %s" % var
+    raise Unsupported("skip test `%s` (only `%s == 0` is understood)" % (ast.unparse(e), var))
+
+
+def otype_test(e):
+    """term.opdesc[i].otype == IFOType.FERMI_CREATE / FERMI_ANNIHIL  ->  test on the pattern entry (true = create)"""
+    if isinstance(e, ast.Compare) and len(e.ops) == 1 and isinstance(e.ops[0], ast.Eq):
+        l, r = ast.unparse(e.left), ast.unparse(e.comparators[0])
+        for x, y in ((l, r), (r, l)):
+            if x == "term.opdesc[i].otype" and y == "IFOType.FERMI_CREATE":
+                return "Bool.eqb (fst ij) true"
+            if x == "term.opdesc[i].otype" and y == "IFOType.FERMI_ANNIHIL":
+                return "Bool.eqb (fst ij) false"
+    raise Unsupported("operator-type test `%s`" % ast.unparse(e))
+
+
+def assembly_loop(body, clist_loop):
+    """statement-by-statement translation of
+
+        op = sparse.csr_matrix((2**L, 2**L))
+        for term in self.terms:
+            it = np.nditer(term.coeffs, flags=["multi_index"])
+            for coeff in it:
+                [if coeff == 0: continue]
+                fstring = sparse.identity(2**L)
+                for i, j in enumerate(it.multi_index):
+                    if <otype test>: fstring = <product of fstring / clist[j] / alist[j]> elif ... else: raise
+                op += coeff * fstring
+        return op
+
+    Assumed meaning of the numpy iterator (validated by the correspondence run): np.nditer(a, flags=["multi_index"])
+    visits every multi-index of `a` exactly once, `coeff` being a[it.multi_index] (C order for C-contiguous
+    arrays; the order is irrelevant for the sum)."""
+    k = body.index(clist_loop)
+    rest = [s for s in body[k + 1:] if not (isinstance(s, ast.Assign) and ast.unparse(s.targets[0]) == "alist")]
+    if len(rest) != 3:
+        raise Unsupported("after the ladder matrices: expected `op = ...`, one loop over the terms and `return op`")
+    init, tloop, ret = rest
+    if not (isinstance(init, ast.Assign) and len(init.targets) == 1 and isinstance(init.targets[0], ast.Name)
+            and isinstance(init.value, ast.Call) and ast.unparse(init.value.func) == "sparse.csr_matrix"
+            and len(init.value.args) == 1 and not init.value.keywords and isinstance(init.value.args[0], ast.Tuple)
+            and len(init.value.args[0].elts) == 2 and all(is_pow2L(x) for x in init.value.args[0].elts)):
+        raise Unsupported("accumulator is not initialised by sparse.csr_matrix((2**L, 2**L))")
+    acc = init.targets[0].id
+    if not (isinstance(ret, ast.Return) and isinstance(ret.value, ast.Name) and ret.value.id == acc):
+        raise Unsupported("as_matrix does not end with `return %s`" % acc)
+    if not (isinstance(tloop, ast.For) and ast.unparse(tloop.target) == "term" and ast.unparse(tloop.iter) == "self.terms"
+            and not tloop.orelse and len(tloop.body) == 2):
+        raise Unsupported("expected `for term in self.terms:` with two statements")
+    itdef, cloop = tloop.body
+    if ast.unparse(itdef) != "it = np.nditer(term.coeffs, flags=['multi_index'])":
+        raise Unsupported("iterator is not np.nditer(term.coeffs, flags=['multi_index'])")
+    if not (isinstance(cloop, ast.For) and ast.unparse(cloop.iter) == "it" and isinstance(cloop.target, ast.Name)
+            and not cloop.orelse):
+        raise Unsupported("expected `for coeff in it:`")
+    cv = cloop.target.id
+    if cv != "coeff":
+        raise Unsupported("the coefficient variable is not called coeff")
+    stmts = list(cloop.body)
+    skip = None
+    if stmts and isinstance(stmts[0], ast.If):
+        s0 = stmts.pop(0)
+        if s0.orelse or len(s0.body) != 1 or not isinstance(s0.body[0], ast.Continue):
+            raise Unsupported("the leading `if` of the coefficient loop is not `if ...: continue`")
+        skip = zero_test(s0.test, cv)
+    if len(stmts) != 3:
+        raise Unsupported("coefficient loop: expected fstring = identity, the product loop and the accumulation")
+    fdef, ploop, accum = stmts
+    if not (isinstance(fdef, ast.Assign) and ast.unparse(fdef.targets[0]) == "fstring" and isinstance(fdef.value, ast.Call)
+            and ast.unparse(fdef.value.func) == "sparse.identity" and len(fdef.value.args) == 1 and not fdef.value.keywords
+            and is_pow2L(fdef.value.args[0])):
+        raise Unsupported("fstring is not initialised by sparse.identity(2**L)")
+    if not (isinstance(ploop, ast.For) and ast.unparse(ploop.target) == "(i, j)"
+            and ast.unparse(ploop.iter) == "enumerate(it.multi_index)" and not ploop.orelse
+            and len(ploop.body) == 1 and isinstance(ploop.body[0], ast.If)):
+        raise Unsupported("expected `for i, j in enumerate(it.multi_index):` with one if/elif/else")
+
+    def matexpr(e):
+        if isinstance(e, ast.Name) and e.id == "fstring":
+            return "fstring"
+        if isinstance(e, ast.Subscript) and isinstance(e.value, ast.Name) and e.value.id in ("clist", "alist") \
+                and isinstance(e.slice, ast.Name) and e.slice.id == "j":
+            return "(%s (snd ij))" % e.value.id
+        if isinstance(e, ast.BinOp) and isinstance(e.op, ast.MatMult):
+            return "(mmul n %s %s)" % (matexpr(e.left), matexpr(e.right))
+        raise Unsupported("matrix expression %s" % ast.unparse(e))
+
+    def pbranch(node):
+        if not (len(node.body) == 1 and isinstance(node.body[0], ast.Assign)
+                and ast.unparse(node.body[0].targets[0]) == "fstring"):
+            raise Unsupported("branch of the product loop is not a single assignment to fstring")
+        t = "if %s then %s else " % (otype_test(node.test), matexpr(node.body[0].value))
+        if len(node.orelse) == 1 and isinstance(node.orelse[0], ast.If):
+            return t + pbranch(node.orelse[0])
+        if len(node.orelse) == 1 and isinstance(node.orelse[0], ast.Raise):
+            return t + "mzero"
+        if not node.orelse:
+            return t + "fstring"
+        raise Unsupported("else-branch of the product loop")
+    step = pbranch(ploop.body[0])
+    # op += coeff * fstring   |   op = op + coeff * fstring
+    if isinstance(accum, ast.AugAssign) and isinstance(accum.op, ast.Add) and ast.unparse(accum.target) == acc:
+        addend = accum.value
+    elif isinstance(accum, ast.Assign) and ast.unparse(accum.targets[0]) == acc and isinstance(accum.value, ast.BinOp) \
+            and isinstance(accum.value.op, ast.Add) and ast.unparse(accum.value.left) == acc:
+        addend = accum.value.right
+    else:
+        raise Unsupported("accumulation `%s` is not `%s += ...`" % (ast.unparse(accum), acc))
+    if not (isinstance(addend, ast.BinOp) and isinstance(addend.op, ast.Mult)
+            and sorted([ast.unparse(addend.left), ast.unparse(addend.right)]) == ["coeff", "fstring"]):
+        raise Unsupported("the addend `%s` is not coeff * fstring" % ast.unparse(addend))
+    inner = ("let fstring := fold_left (fun (fstring : BMx K) (ij : ifo) =>\n          %s)\n"
+             "        (combine (tpat tm) idx) mid in\n      madd op (mscal coeff fstring)" % step)
+    if skip:
+        inner = "if %s then op else\n      %s" % (skip, inner)
+    return ("(* the accumulation loop of as_matrix, statement by statement; zero-skip test present: %s *)\n"
+            "Definition gen_fo_skips_zero : bool := %s.\n"
+            "Definition gen_fo_loop {K : Scalar} (n : nat) (isz : K -> bool) (clist alist : nat -> BMx K)\n"
+            "           (terms : list (term K)) : BMx K :=\n"
+            "  fold_left (fun (op : BMx K) (tm : term K) =>\n"
+            "    fold_left (fun (op : BMx K) (idx : list nat) =>\n"
+            "      let coeff := tcf tm idx in\n"
+            "      %s)\n"
+            "    (all_idx n (length (tpat tm))) op)\n"
+            "  terms mzero." % (bool(skip), "true" if skip else "false", inner))
 
 
 if __name__ == "__main__":
